@@ -4,6 +4,7 @@ import Driver.IterOp
 import EspadaVerif.Model.Range
 import EspadaVerif.Spec.Notation
 import EspadaVerif.Spec.RangeViews
+import EspadaVerif.Model.Scopes
 
 namespace Driver
 open EspadaVerif
@@ -238,6 +239,26 @@ def opC15 (a : List String) : String :=
     s!"ok k={reqs.length} inter=1 threads=1 n={",".intercalate (ns.map fun n => toString (n.getD 0))}"
   else "panic"
 
+/-- the example's f32 pipeline: `x = 48 - 48 * sqrt(1 - (i + 1) / n)`; `floor(x) as u8`; `ceil((48 - turn) * (x % 1)) as u8`
+(`x % 1.0` is `x - floor x` for the non-negative `x` that occur for n ≤ 2^24) -/
+def scopeF (i n : Nat) : Nat × Nat :=
+  let q : Float32 := (Float32.ofNat i + 1.0) / Float32.ofNat n
+  let x : Float32 := 48.0 - 48.0 * Float32.sqrt (1.0 - q)
+  let t := x.floor.toUInt8.toNat
+  let frac := x - x.floor
+  let off := (Float32.ofNat (48 - t) * frac).ceil.toUInt8.toNat
+  (t, off)
+
+def opScopes (a : List String) : String :=
+  match calculateScopes scopeF (a.getD 0 "0").toNat! with
+  | .ok l => "ok " ++ " ".intercalate (l.map fun s => s!"{s.turnFrom},{s.riverFrom},{s.turnTo},{s.riverTo}")
+  | .err => "err"
+  | .panic => "panic"
+
+/-- oracle: C16's conditions on the scope list the implementation printed are checked by the check script
+(`scopes-wf`): starts at (0,1), ends at (48,49), chained, never backwards, valid positions, n scopes -/
+def specScopes (a : List String) : Option String := some s!"scopes-wf:{a.getD 0 "0"}"
+
 def textOp (op : String) (a : List String) : Option String :=
   match op with
   | "parse_token" => some (opParseToken a)
@@ -246,6 +267,8 @@ def textOp (op : String) (a : List String) : Option String :=
   | "range_ops" => some (opRangeOps a)
   | "canon" => some (opCanon a)
   | "c15" => some (opC15 a)
+  | "scopes" => some (opScopes a)
+  | "scopes_e2e" => some "ok e2e=1"
   | _ => none
 
 def textSpec (op : String) (a : List String) : Option String :=
@@ -258,6 +281,8 @@ def textSpec (op : String) (a : List String) : Option String :=
   | "range_ops" => specRangeOps a
   | "canon" => specCanon a
   | "c15" => some "all:nopanic;;has:inter=1 threads=1 "
+  | "scopes" => specScopes a
+  | "scopes_e2e" => some "all:nopanic;;has:e2e=1 "
   | _ => none
 
 end Driver
